@@ -1,5 +1,7 @@
 import TantivyModel.Proofs.Reader
 import TantivyModel.Proofs.ReaderSeq
+import TantivyModel.Proofs.ReaderPub
+import TantivyModel.Proofs.Generations
 /-!
 # C05 — Searchers are immutable snapshots; readers only ever see whole commits
 
@@ -104,6 +106,10 @@ theorem C05_published_handles_fixed (d : Disc) (s : St) (e : Ev) (r : Rid)
       simp only [ok] at hok
       split at hok <;> simp [hp] at hok
     simp [step, searcherOf, upd, hne, hp]
+  | warm r' =>
+    by_cases hne : r = r'
+    · subst hne; simp [step, searcherOf, upd, hp]
+    · simp [step, searcherOf, upd, hne, hp]
   | publish r' =>
     have hne : r ≠ r' := by
       intro h; subst h
@@ -219,5 +225,145 @@ example : ok full (run init [.create 1 10, .saveMeta [1], .acquire (0, 0), .load
     (.openFile (0, 0) 1) = true := by decide
 
 example : observe init (fun l => l.length) [⟨1, 10⟩, ⟨2, 20⟩] = 2 := by decide
+
+/-! ### publication as an atomic register (`ArcSwap`), warming, generations -/
+
+/-- `ArcSwap::store`: from the moment reload `r` publishes, `searcher()` of its reader returns
+`r`'s searcher (commit `j`) … -/
+theorem C05_searcher_serves_last_publication (s : St) (r : Rid) (j : Nat)
+    (hj : (s.rs r).j = some j) :
+    served r.1 (step s (.publish r)) = some j ∧ servedReload r.1 (step s (.publish r)) = some r :=
+  served_step_publish s r j hj
+
+/-- … and no event other than a publication of the same reader changes what `searcher()` returns:
+the register has no other writer (commits, merges, GC, other readers, a reload in progress) -/
+theorem C05_served_unchanged_by_other_events (ρ : Nat) (s : St) (e : Ev)
+    (h : ∀ r, e = .publish r → r.1 ≠ ρ) : served ρ (step s e) = served ρ s := by
+  unfold served; rw [served_step_other ρ s e h]
+
+/-- Linearisable, monotone reads: with the reloads of reader `ρ` serialised (the reload mutex),
+whatever `searcher()` returned at some point of a disciplined history, every later `searcher()`
+returns a commit at least as new — the reader never moves back. -/
+theorem C05_served_commit_monotone (ρ : Nat) (t u : List Ev) (hv : valid full (t ++ u) = true)
+    (hs : sequential ρ (t ++ u) = true) (a b : Nat) (ha : served ρ (run init t) = some a)
+    (hb : served ρ (run init (t ++ u)) = some b) : a ≤ b := by
+  have hsorted := C05_sequential_reloads_monotone ρ (t ++ u) hv hs
+  obtain ⟨ext, he⟩ := pubs_run_prefix (run init t) u
+  rw [← run_append] at he
+  have hsplit := pubsOf_of_pubs_append ρ (run init t) (run init (t ++ u)) ext he
+  unfold served at ha hb
+  rw [hsplit] at hsorted hb
+  exact getLast_le_of_pairwise _ _ hsorted a b ha hb
+
+/-- what `searcher()` returns is a whole commit: the served reload's handles are exactly the
+files of one meta, all opened successfully -/
+theorem C05_served_is_whole_commit (ρ : Nat) (t : List Ev) (hv : valid full t = true) (r : Rid)
+    (hr : servedReload ρ (run init t) = some r) :
+    ∃ j, ((run init t).rs r).j = some j ∧
+      ∀ p, p ∈ (searcherOf (run init t) r).map (·.path) ↔ p ∈ metaFiles (run init t) j := by
+  have hm := List.mem_of_getLast? hr
+  simp only [List.mem_map, List.mem_filter] at hm
+  obtain ⟨⟨r', j⟩, ⟨hmem, _⟩, hrr⟩ := hm
+  simp only at hrr
+  subst hrr
+  exact ⟨j, (C05_reload_whole_commit t hv).2 r' j hmem⟩
+
+/-- warming precedes publication: if reader `ρ` stores only searchers returned by
+`create_searcher` (which runs every warmer and propagates their errors before returning), every
+searcher `ρ` ever published had been warmed -/
+theorem C05_published_searcher_warmed (ρ : Nat) (t : List Ev) (hv : valid full t = true)
+    (hw : warmedBeforePublish ρ t = true) (r : Rid) (j : Nat)
+    (hm : (r, j) ∈ (run init t).pubs) (hr : r.1 = ρ) : ((run init t).rs r).warmed = true :=
+  warm_run ρ init t inv_init (warmInv_init ρ) hv hw r j hm hr
+
+/-- the source has that order: track in the inventory, build, `warm_new_searcher_generation(..)?`,
+`Ok(searcher)`; `reload` stores what `create_searcher` returned; the id is recorded before the
+warmers run -/
+theorem C05_warming_order_in_source :
+    Gen.WARM_AFTER_TRACK_BEFORE_RETURN = 1 ∧ Gen.RELOAD_PUBLISHES_CREATED_SEARCHER = 1 ∧
+    Gen.WARM_RECORDS_ID_BEFORE_WARMERS = 1 := by decide
+
+/-- Inventory of live generations: a generation that was warmed and of which some searcher is
+still alive (in flight, in the ArcSwap slot or held by a client) keeps its warmer artifact, for
+every history of reloads, `searcher()` calls, drops and warmer GCs -/
+theorem C05_live_generation_keeps_its_artifacts (t : List Gens.GEv) (hv : Gens.gvalid t = true)
+    (g : Nat) (hw : g ∈ (Gens.grun Gens.ginit t).everWarmed)
+    (hl : Gens.live (Gens.grun Gens.ginit t) g = true) :
+    g ∈ (Gens.grun Gens.ginit t).artifacts :=
+  (Gens.ginv_run Gens.ginit t Gens.ginv_init hv).kept g hw hl
+
+/-- the list the next `Warmer::garbage_collect` receives contains every live generation -/
+theorem C05_warmer_gc_list_has_every_live_generation (t : List Gens.GEv)
+    (hv : Gens.gvalid t = true) (g : Nat) (hl : Gens.live (Gens.grun Gens.ginit t) g = true) :
+    g ∈ Gens.liveList (Gens.grun Gens.ginit t) :=
+  Gens.mem_liveList _ g ((Gens.ginv_run Gens.ginit t Gens.ginv_init hv).bound g hl) hl
+
+/-- generation ids are drawn in increasing order without repetition -/
+theorem C05_generation_ids_increasing (t : List Gens.GEv) (hv : Gens.gvalid t = true) :
+    (Gens.grun Gens.ginit t).drawn = (List.range (Gens.grun Gens.ginit t).counter).reverse ∧
+    (Gens.grun Gens.ginit t).drawn.Nodup := by
+  have h := (Gens.ginv_run Gens.ginit t Gens.ginv_init hv).drawn
+  refine ⟨h, ?_⟩
+  rw [h]
+  unfold List.Nodup
+  rw [List.pairwise_reverse]
+  exact (List.nodup_range (n := (Gens.grun Gens.ginit t).counter)).imp (fun h => Ne.symm h)
+
+/-- the source has the shape the generation model assumes: the tracked object is owned by the
+shared inner searcher, and the only `Warmer::garbage_collect` call gets `inventory.list()` -/
+theorem C05_generation_bookkeeping_in_source :
+    Gen.GENERATION_TRACKED_IN_SEARCHER_INNER = 1 ∧ Gen.WARMER_GC_GETS_INVENTORY_LIST = 1 := by
+  decide
+
+/-! ### the main theorems with the discipline read off the source instead of assumed -/
+
+theorem C05_reload_whole_commit_of_source (t : List Ev) (hv : valid codeDisc t = true) :
+    (run init t).badOpens = [] ∧
+    ∀ r j, (r, j) ∈ (run init t).pubs →
+      ((run init t).rs r).j = some j ∧
+      ∀ p, p ∈ (searcherOf (run init t) r).map (·.path) ↔ p ∈ metaFiles (run init t) j := by
+  rw [C05_code_follows_discipline] at hv
+  exact C05_reload_whole_commit t hv
+
+theorem C05_no_uncommitted_of_source (t : List Ev) (hv : valid codeDisc t = true) (r : Rid)
+    (h : Handle) (hh : h ∈ searcherOf (run init t) r) : ¬ uncommitted (run init t) h.path := by
+  rw [C05_code_follows_discipline] at hv
+  exact (C05_no_uncommitted t hv r h hh).2
+
+theorem C05_served_commit_monotone_of_source (ρ : Nat) (t u : List Ev)
+    (hv : valid codeDisc (t ++ u) = true) (hs : sequential ρ (t ++ u) = true) (a b : Nat)
+    (ha : served ρ (run init t) = some a) (hb : served ρ (run init (t ++ u)) = some b) : a ≤ b := by
+  rw [C05_code_follows_discipline] at hv
+  exact C05_served_commit_monotone ρ t u hv hs a b ha hb
+
+/-! non-vacuity of the new statements -/
+
+example :
+    let t : List Ev :=
+      [.create 1 10, .saveMeta [1], .acquire (3, 0), .loadMeta (3, 0), .openFile (3, 0) 1,
+       .release (3, 0), .warm (3, 0), .publish (3, 0)]
+    let u : List Ev :=
+      [.create 2 20, .saveMeta [1, 2], .acquire (3, 1), .loadMeta (3, 1), .openFile (3, 1) 2,
+       .openFile (3, 1) 1, .release (3, 1), .warm (3, 1), .publish (3, 1)]
+    valid full (t ++ u) = true ∧ sequential 3 (t ++ u) = true ∧
+      warmedBeforePublish 3 (t ++ u) = true ∧ served 3 (run init t) = some 1 ∧
+      served 3 (run init (t ++ u)) = some 2 ∧ servedReload 3 (run init (t ++ u)) = some (3, 1) := by
+  decide
+
+/-- a publication without warming is what `warmedBeforePublish` excludes -/
+example : warmedBeforePublish 3 [.create 1 10, .saveMeta [1], .acquire (3, 0), .loadMeta (3, 0),
+    .openFile (3, 0) 1, .release (3, 0), .publish (3, 0)] = false := by decide
+
+example :
+    let t : List Gens.GEv :=
+      [.track, .warm 0, .store 0, .take, .track, .warm 1, .store 1, .warmGc, .drop 0, .warmGc]
+    Gens.gvalid t = true ∧ (Gens.grun Gens.ginit t).gcCalls = [[1]] ∧
+      (Gens.grun Gens.ginit t).artifacts = [1] ∧ Gens.live (Gens.grun Gens.ginit t) 1 = true ∧
+      Gens.live (Gens.grun Gens.ginit t) 0 = false := by
+  decide
+
+/-- while the client still holds generation 0 the warmers are not even asked -/
+example : (Gens.grun Gens.ginit [.track, .warm 0, .store 0, .take, .track, .warm 1, .store 1,
+    .warmGc]).artifacts = [1, 0] := by decide
 
 end TantivyModel.C05
